@@ -22,6 +22,7 @@ import multiprocessing as mp
 import os
 import random
 import re
+import shutil
 import subprocess
 import sys
 import time
@@ -307,6 +308,12 @@ def audit(mod, ctx: Ctx):
                 bad.append(f'{p.name}:{i + 1}: {line.strip()[:80]}')
     if bad:
         ctx.brk('proof', 'forbidden-token', '; '.join(bad[:10]))
+    # thorough tier: the toolchain's independent re-checker replays the compiled declarations of the property modules
+    if getattr(ctx, 'tier', 'quick') == 'thorough' and shutil.which('leanchecker'):
+        rc2, out2 = sh(['lake', 'env', 'leanchecker', *mod.LEAN_MODULES], cwd=LEAN, timeout=1800)
+        ctx.notes['leanchecker'] = {'modules': list(mod.LEAN_MODULES), 'exit': rc2}
+        if rc2 != 0:
+            ctx.brk('proof', 'leanchecker', f'leanchecker exit {rc2}: ' + out2[-600:])
     return len(thms), discharged, ok
 
 
